@@ -244,6 +244,11 @@ func runCheck(prop, tier string, seed uint64) int {
 	var stopOnce sync.Once
 	var nextIdx int64 // worlds are handed out in chunks of consecutive indexes
 	chunk := 40
+	if prop == "C08" {
+		// a recovery that dies in the handshake (the listed mid-commit finding, a dozen per enumerated block) leaves
+		// store handles of that instance behind; short-lived worker processes keep that from adding up
+		chunk = 4
+	}
 	if nWorlds/(nw*4) < chunk {
 		chunk = nWorlds/(nw*4) + 1
 	}
